@@ -231,7 +231,7 @@ pub assume_specification<T, A: std::alloc::Allocator> [Vec::<T, A>::shrink_to_fi
     ensures final(v)@ == old(v)@;
 
 //@ extract mdb_shard/src/streaming_shard.rs in `impl MDBMinimalShard` region from_reader
-//@ from `FileDataSequenceHeader::bookend().serialize(&mut data_vec)?;`
+//@ from-after `Ok(()) })?;` #1
 //@ to `let mut cas_offsets = Vec::<u32>::new();`
 //@ sig `fn from_reader_mid(mut data_vec: &mut Vec<u8>) -> (res: Result<(u32, Vec<u32>)>)`
 //@ epilogue `Ok((cas_info_start, cas_offsets))`
@@ -267,7 +267,7 @@ impl MDBMinimalShard {
 //@ subst `reader: &mut R` => `reader: &mut VxSR` :: R11 reader stub with ghost bytes and position
 //@ subst `mut file_callback: FileFunc` => `file_callback: &mut VxFileCb` :: the instance FileFunc = &mut VxFileCb (a `&mut F` is itself an FnMut), so the calls can be observed
 //@ subst `where FileFunc: FnMut(MDBFileInfoView) -> Result<()>,` => `` :: instance, see above
-//@ subst `file_callback(` => `file_callback.call(` :: call of the callback stub
+//@ optsubst `file_callback(` => `file_callback.call(` :: call of the callback stub
 //@ subst `copy(&mut reader.take(n_bytes as u64), &mut file_data)?` => `vx_copy_take(reader, n_bytes as u64, &mut file_data)?` :: R7 outline of io::copy from Take (contract assumed from std)
 //@ contract
     requires has_file_section(old(reader).data@, old(reader).pos@), old(reader).pos@ >= 0,
@@ -323,7 +323,7 @@ impl MDBMinimalShard {
 //@ subst `reader: &mut R` => `reader: &mut VxSR` :: R11 reader stub with ghost bytes and position
 //@ subst `mut cas_callback: CasFunc` => `cas_callback: &mut VxCasCb` :: the instance CasFunc = &mut VxCasCb
 //@ subst `where CasFunc: FnMut(MDBCASInfoView) -> Result<()>,` => `` :: instance, see above
-//@ subst `cas_callback(` => `cas_callback.call(` :: call of the callback stub
+//@ optsubst `cas_callback(` => `cas_callback.call(` :: call of the callback stub
 //@ subst `copy(&mut reader.take(n_bytes as u64), &mut cas_data)?` => `vx_copy_take(reader, n_bytes as u64, &mut cas_data)?` :: R7 outline of io::copy from Take (contract assumed from std)
 //@ contract
     requires has_cas_section(old(reader).data@, old(reader).pos@), old(reader).pos@ >= 0,
@@ -398,7 +398,7 @@ impl VxFileCb {
 //@ subst `file_callback: Option<FileFunc>` => `file_callback: Option<&mut VxFileCb>` :: the instance FileFunc = &mut VxFileCb
 //@ subst `cas_callback: Option<CasFunc>` => `cas_callback: Option<&mut VxCasCb>` :: the instance CasFunc = &mut VxCasCb
 //@ subst `where FileFunc: FnMut(MDBFileInfoView) -> Result<()>, CasFunc: FnMut(MDBCASInfoView) -> Result<()>,` => `` :: instances, see above
-//@ subst `|_| Ok(())` => `&mut VxFileCb::noop()` :: R7 outline of the no-op closure literal
+//@ optsubst `|_| Ok(())` => `&mut VxFileCb::noop()` :: R7 outline of the no-op closure literal
 //@ body-start
     proof { let d = reader.data@; let fo = reader.pos@ + 48; lemma_file_pos_ge(fo, the_file_section(d, fo), the_file_section(d, fo).len() as int); }
 //@ contract
@@ -594,26 +594,29 @@ spec fn sections_fit(data: Seq<u8>, foff: int, include_files: bool, include_cas:
     let fs = the_file_section(data, foff); let coff = cas_start(data, foff); let cs = the_cas_section(data, coff);
     (if include_files { file_pos(foff, fs, fs.len() as int) - foff } else { 0 }) + 48 + (if include_cas { cas_pos(coff, cs, cs.len() as int) - coff } else { 0 }) + 48 <= u32::MAX
 }
+
+spec fn from_reader_pre(data: Seq<u8>, pos: int, include_files: bool, include_cas: bool) -> bool {
+    &&& pos >= 0 && has_file_section(data, pos + 48)
+    &&& include_cas ==> has_cas_section(data, cas_start(data, pos + 48))
+    // the selected info sections fit the u32 offsets a minimal shard stores (< 4 GiB)
+    &&& sections_fit(data, pos + 48, include_files, include_cas)
+}
+// the minimal shard lists exactly the file records / xorb records of the stream's sections (all of them, up to the bookends,
+// whatever the footer says — the footer is never read), or none of a section that was not asked for; every record's entries are
+// the stream's bytes
+spec fn from_reader_post(data: Seq<u8>, pos: int, include_files: bool, include_cas: bool, m: MDBMinimalShard) -> bool {
+    let foff = pos + 48; let coff = cas_start(data, foff);
+    &&& min_wf(m)
+    &&& min_files(m) == (if include_files { the_file_section(data, foff) } else { Seq::empty() })
+    &&& min_cas(m) == (if include_cas { the_cas_section(data, coff) } else { Seq::empty() })
+    &&& include_files ==> forall|i: int| 0 <= i < min_files(m).len() ==>
+            m.data@.subrange(#[trigger] file_pos(0, min_files(m), i) + 48, file_pos(0, min_files(m), i + 1)) == data.subrange(file_pos(foff, min_files(m), i) + 48, file_pos(foff, min_files(m), i + 1))
+    &&& include_cas ==> forall|i: int| 0 <= i < min_cas(m).len() ==>
+            m.data@.subrange(#[trigger] cas_pos(m.cas_info_start as int, min_cas(m), i) + 48, cas_pos(m.cas_info_start as int, min_cas(m), i + 1)) == data.subrange(cas_pos(coff, min_cas(m), i) + 48, cas_pos(coff, min_cas(m), i + 1))
+}
 fn vx_glue_from_reader(reader: &mut VxSR, include_files: bool, include_cas: bool) -> (res: Result<MDBMinimalShard>)
-    requires
-        old(reader).pos@ >= 0, has_file_section(old(reader).data@, old(reader).pos@ + 48),
-        include_cas ==> has_cas_section(old(reader).data@, cas_start(old(reader).data@, old(reader).pos@ + 48)),
-        // the selected info sections fit the u32 offsets a minimal shard stores (< 4 GiB)
-        sections_fit(old(reader).data@, old(reader).pos@ + 48, include_files, include_cas),
-    ensures
-        res matches Ok(m) ==> ({
-            let data = old(reader).data@; let foff = old(reader).pos@ + 48; let coff = cas_start(data, foff);
-            // the minimal shard lists exactly the file records / xorb records of the stream's sections (all of them, up to the
-            // bookends, whatever the footer says — the footer is never read), or none of a section that was not asked for
-            &&& /*@C09*/ min_wf(m)
-            &&& /*@C09*/ min_files(m) == (if include_files { the_file_section(data, foff) } else { Seq::empty() })
-            &&& /*@C09*/ min_cas(m) == (if include_cas { the_cas_section(data, coff) } else { Seq::empty() })
-            // and every record's entries are the stream's bytes
-            &&& /*@C09*/ include_files ==> forall|i: int| 0 <= i < min_files(m).len() ==>
-                    m.data@.subrange(#[trigger] file_pos(0, min_files(m), i) + 48, file_pos(0, min_files(m), i + 1)) == data.subrange(file_pos(foff, min_files(m), i) + 48, file_pos(foff, min_files(m), i + 1))
-            &&& /*@C09*/ include_cas ==> forall|i: int| 0 <= i < min_cas(m).len() ==>
-                    m.data@.subrange(#[trigger] cas_pos(m.cas_info_start as int, min_cas(m), i) + 48, cas_pos(m.cas_info_start as int, min_cas(m), i + 1)) == data.subrange(cas_pos(coff, min_cas(m), i) + 48, cas_pos(coff, min_cas(m), i + 1))
-        }),
+    requires from_reader_pre(old(reader).data@, old(reader).pos@, include_files, include_cas),
+    ensures res matches Ok(m) ==> /*@C09*/ from_reader_post(old(reader).data@, old(reader).pos@, include_files, include_cas, m),
 {
     let ghost data = reader.data@; let ghost foff = reader.pos@ + 48; let ghost fsec = the_file_section(data, foff);
     let ghost coff = cas_start(data, foff); let ghost csec = the_cas_section(data, coff);
@@ -848,6 +851,56 @@ impl MDBMinimalShard {
 //@ before `let cas_info = self.cas(i);`
             proof { lemma_cas_pos_step(cis, cs, i as int); lemma_cas_pos_mono(cis, cs, i as int + 1, cs.len() as int); lemma_cas_pos_ge(cis, cs, i as int); }
 //@ end
+}
+
+// ---- round trip: minimal(serialize(minimal(b))) == minimal(b) -----------------------------------------------------------
+// a section keeps its record list when the bytes are embedded at another offset
+proof fn lemma_file_section_embed(d: Seq<u8>, sec: Seq<FileDataSequenceHeader>, pre: Seq<u8>, post: Seq<u8>)
+    requires file_section(d, 0, sec), file_pos(0, sec, sec.len() as int) + 48 <= d.len(),
+    ensures file_section(pre + d + post, pre.len() as int, sec),
+{
+    let w = pre + d + post; let b = pre.len() as int; let n = sec.len() as int;
+    assert forall|k: int| 0 <= k <= n implies file_hdr_at(w, #[trigger] file_pos(b, sec, k)) == file_hdr_at(d, file_pos(0, sec, k)) by {
+        lemma_file_pos_shift(b, 0, sec, k); lemma_file_pos_ge(0, sec, k); lemma_file_pos_mono(0, sec, k, n);
+        assert(w.subrange(file_pos(b, sec, k), file_pos(b, sec, k) + 48) =~= d.subrange(file_pos(0, sec, k), file_pos(0, sec, k) + 48));
+    }
+    assert forall|k: int| 0 <= k < n implies file_hdr_at(w, #[trigger] file_pos(b, sec, k)) == sec[k] && sec[k].file_hash != bookend_hash() by {
+        assert(file_hdr_at(d, file_pos(0, sec, k)) == sec[k]);
+    }
+}
+proof fn lemma_cas_section_embed(d: Seq<u8>, base: int, sec: Seq<CASChunkSequenceHeader>, pre: Seq<u8>, post: Seq<u8>)
+    requires cas_section(d, base, sec), base >= 0, cas_pos(base, sec, sec.len() as int) + 48 <= d.len(),
+    ensures cas_section(pre + d + post, pre.len() + base, sec),
+{
+    let w = pre + d + post; let b = pre.len() + base; let n = sec.len() as int;
+    assert forall|k: int| 0 <= k <= n implies cas_hdr_at(w, #[trigger] cas_pos(b, sec, k)) == cas_hdr_at(d, cas_pos(base, sec, k)) by {
+        lemma_cas_pos_shift(b, base, sec, k); lemma_cas_pos_ge(base, sec, k); lemma_cas_pos_mono(base, sec, k, n);
+        assert(w.subrange(cas_pos(b, sec, k), cas_pos(b, sec, k) + 48) =~= d.subrange(cas_pos(base, sec, k), cas_pos(base, sec, k) + 48));
+    }
+    assert forall|k: int| 0 <= k < n implies cas_hdr_at(w, #[trigger] cas_pos(b, sec, k)) == sec[k] && sec[k].cas_hash != bookend_hash() by {
+        assert(cas_hdr_at(d, cas_pos(base, sec, k)) == sec[k]);
+    }
+}
+// what `serialize` writes can be read back by `from_reader` (both sections), and reading it back gives the same record lists:
+// the two contracts compose — serialize_post puts m's buffer at offset 48, from_reader_post lists the sections found there
+proof fn lemma_minimal_roundtrip(m: MDBMinimalShard, w: Seq<u8>, n: int, m2: MDBMinimalShard)
+    requires min_wf(m), serialize_post(m, Seq::empty(), w, n),
+    ensures
+        /*@C09*/ from_reader_pre(w, 0, true, true),
+        /*@C09*/ from_reader_post(w, 0, true, true, m2) ==> min_files(m2) == min_files(m) && min_cas(m2) == min_cas(m),
+{
+    let f = choose|f: MDBShardFileFooter| min_footer_ok(m, f) && w == Seq::<u8>::empty() + enc_shard_hdr() + m.data@ + #[trigger] enc_footer(f);
+    let d = m.data@; let fs = min_files(m); let cis = m.cas_info_start as int; let cs = min_cas(m);
+    axiom_shard_hdr_len();
+    assert(w =~= enc_shard_hdr() + d + enc_footer(f));
+    lemma_file_pos_ge(0, fs, fs.len() as int); lemma_cas_pos_ge(cis, cs, cs.len() as int);
+    lemma_file_section_embed(d, fs, enc_shard_hdr(), enc_footer(f));
+    lemma_cas_section_embed(d, cis, cs, enc_shard_hdr(), enc_footer(f));
+    lemma_the_file_section(w, 48, fs);
+    lemma_file_pos_shift(48, 0, fs, fs.len() as int);
+    assert(cas_start(w, 48) == 48 + cis);
+    lemma_the_cas_section(w, 48 + cis, cs);
+    lemma_cas_pos_shift(48 + cis, cis, cs, cs.len() as int);
 }
 
 } // verus!
